@@ -735,6 +735,7 @@ structure PhaseEnd (s : CState) : Prop where
   pc : s.pc = .idle
   prog : s.prog = []
   quiet : ∀ w ∈ s.writers, w.pc = .done
+  files : s.m.files = []
   final : Final ac cy s
 
 /-- the invariant of one use cycle -/
@@ -1739,9 +1740,11 @@ theorem D_cstep {s t : CState} (hD : PhaseD c ac cy s) (hst : CStep s t) : CInv 
     · refine Or.inl ?_
       rw [hio]; exact Reported_finish _
     · obtain ⟨hl0, hp0, he0⟩ := clear_len_pos s.m
-      refine Or.inr (Or.inr ⟨by simp [finishOp, hm, he0], Or.inr (Or.inr (Or.inr ⟨rfl, ?_, ?_, ?_⟩))⟩)
+      refine Or.inr (Or.inr ⟨by simp [finishOp, hm, he0], Or.inr (Or.inr (Or.inr ⟨rfl, ?_, ?_, ?_, ?_⟩))⟩)
       · rw [hok, finishOp_ok_prog, hfr.prog, hp, hcl]; rfl
       · intro w hw; simp only [finishOp, hfr.writers] at hw; exact hD.quiet w hw
+      · show (finishOp _ _ _).m.files = []
+        simp only [finishOp, hm]; unfold clear; split <;> rfl
       · have houts' : (finishOp (clearF s).1 (clearF s).2 none).outs.reverse
             = s.outs.reverse ++ [⟨.ok, none, 0, 0⟩] := by
           rw [finishOp_outs, hfr.outs, hm, hok, hl0, hp0]
@@ -2252,5 +2255,313 @@ theorem autoClean_const {conc : Bool} {c : Nat} {ac acl : Bool} {prog : List Op}
         obtain ⟨w', s'⟩ := p
         simp only [hw, Option.some.injEq] at hst; subst hst
         show s'.autoClean = acl; rw [(wstep_dir hw).2]; exact ha
+
+/-! ### residue of the temporary directory: AutoClear -/
+
+def atReg (w : Writer) : Bool := w.pc == .register
+
+/-- run files present in the directory = registered files + files created but not yet registered
+    (AutoClear set, AutoClean not set, no fault injected) -/
+def DiskInv (s : CState) : Prop :=
+  s.flt = none ∧ s.m.autoClear = true ∧ s.autoClean = false ∧ s.onDisk = s.m.files.length + cnt atReg s
+
+theorem clearLoop_none' : ∀ (d : Nat) (fs : List File), clearLoop none d fs = (none, d - fs.length, true) := by
+  intro d fs
+  induction fs generalizing d with
+  | nil => rfl
+  | cons f fs ih =>
+    simp only [clearLoop, tick_none, Bool.false_eq_true, if_false, ih (d - 1), List.length_cons]
+    congr 2; omega
+
+theorem primeAll_none' : ∀ (fs : List File), primeAll none fs = (none, fs.map primeFile, true) := by
+  intro fs
+  induction fs with
+  | nil => rfl
+  | cons f fs ih => simp [primeAll, tick_none, ih]
+
+theorem clearF_disk {s : CState} (hf : s.flt = none) :
+    (clearF s).1.flt = none ∧ (clearF s).1.onDisk = s.onDisk - s.m.files.length ∧ (clearF s).1.m.files = []
+    ∧ (clearF s).1.m.autoClear = s.m.autoClear := by
+  have hfiles : (clear s.m).files = [] := by unfold clear; split <;> rfl
+  have hac : (clear s.m).autoClear = s.m.autoClear := by unfold clear; split <;> rfl
+  refine ⟨?_, ?_, ?_, ?_⟩ <;> simp [clearF, hf, clearLoop_none', hfiles, hac]
+
+theorem popMin_length {fs : List File} {low : File} {others : List File}
+    (h : popMin fs = some (low, others)) : fs.length = others.length + 1 := by
+  have := (popMin_spec fs low others h).1.length_eq
+  simpa using this
+
+/-- the effect of `Pull` on the directory under AutoClear (no AutoClean, no fault) -/
+theorem pullF_disk {s : CState} (hf : s.flt = none) (hac : s.m.autoClear = true) (hacl : s.autoClean = false)
+    (hle : s.m.files.length ≤ s.onDisk) :
+    (pullF s).1.flt = none ∧ (pullF s).1.m.autoClear = true
+    ∧ (pullF s).1.onDisk + s.m.files.length = s.onDisk + (pullF s).1.m.files.length := by
+  have eofcase : ∀ (s1 : CState), s1.flt = none → s1.m.autoClear = true → s1.autoClean = false →
+      s1.onDisk = s.onDisk → s1.m.files = s.m.files →
+      (atEof (clearF s1).1).flt = none ∧ (atEof (clearF s1).1).m.autoClear = true
+      ∧ (atEof (clearF s1).1).onDisk + s.m.files.length = s.onDisk + (atEof (clearF s1).1).m.files.length := by
+    intro s1 h1 h2 h3 h4 h5
+    obtain ⟨a, b, c', d⟩ := clearF_disk h1
+    have hcl : (clearF s1).1.autoClean = false := by rw [(clearF_dir s1).2]; exact h3
+    have he : atEof (clearF s1).1 = (clearF s1).1 := by simp [atEof, hcl]
+    rw [he, a, b, c', d, h4, h5]
+    exact ⟨rfl, h2, by simp; omega⟩
+  cases hfa : s.m.fast
+  · cases hpm : popMin s.m.files with
+    | none =>
+      have e1 : pullF s = (atEof (clearF s).1, .eof, none) := by simp [pullF, hfa, hpm, hac]
+      rw [e1]; exact eofcase s hf hac hacl rfl rfl
+    | some p =>
+      obtain ⟨low, others⟩ := p
+      have hlen := popMin_length hpm
+      cases hr : low.rest <;> cases hh : low.head <;>
+        simp [pullF, hfa, hpm, hf, tick_none, hr, hh, hac] <;> omega
+  · cases hch : s.m.chunk with
+    | none =>
+      have e1 : pullF s = (atEof (clearF s).1, .eof, none) := by simp [pullF, hfa, hch, hac]
+      rw [e1]; exact eofcase s hf hac hacl rfl rfl
+    | some ch =>
+      cases hg : ch[s.m.pos]? with
+      | some e => simp [pullF, hfa, hch, hg, hf, hac]
+      | none =>
+        by_cases h2 : 2 ≤ s.m.pool
+        · simp [pullF, hfa, hch, hg, h2, hf, hac]
+        · have e1 : pullF s = (atEof (clearF { s with m := { s.m with pool := s.m.pool + 1, chunk := none } }).1, .eof, none) := by
+            simp [pullF, hfa, hch, hg, h2, hac]
+          rw [e1]
+          exact eofcase { s with m := { s.m with pool := s.m.pool + 1, chunk := none } } hf hac hacl rfl rfl
+
+/-- the effect of one `write()` block on the directory (no fault) -/
+theorem wstep_disk {s s' : CState} {w w' : Writer} (hf : s.flt = none) (h : wstep s w = some (w', s')) :
+    s'.onDisk + s.m.files.length + b2n (atReg w) = s.onDisk + s'.m.files.length + b2n (atReg w')
+    ∧ s'.m.autoClear = s.m.autoClear := by
+  unfold wstep at h
+  cases hpc : w.pc <;> simp only [hpc, hf, tick_none] at h
+  · cases hr : s.writable.recv with
+    | none => simp [hr] at h
+    | some p =>
+      obtain ⟨r, ch⟩ := p
+      simp only [hr, Bool.false_eq_true, if_false, Option.some.injEq, Prod.mk.injEq] at h
+      obtain ⟨rfl, rfl⟩ := h
+      simp [atReg, hpc, b2n]; omega
+  · simp only [Option.some.injEq, Prod.mk.injEq] at h; obtain ⟨rfl, rfl⟩ := h
+    have hne : (if w.todo = [] then WPc.sync else WPc.encode) ≠ WPc.register := by
+      split <;> simp
+    simp [atReg, hpc, b2n, hne]; omega
+  · cases htodo : w.todo with
+    | nil =>
+      simp only [htodo, Option.some.injEq, Prod.mk.injEq] at h; obtain ⟨rfl, rfl⟩ := h
+      simp [atReg, hpc, b2n]
+    | cons e t =>
+      simp only [htodo, Bool.false_eq_true, if_false, Option.some.injEq, Prod.mk.injEq] at h
+      obtain ⟨rfl, rfl⟩ := h
+      have hne : (if t = [] then WPc.sync else WPc.encode) ≠ WPc.register := by
+        split <;> simp
+      simp [atReg, hpc, b2n, appendData, List.length_modify, hne]
+  · simp only [Bool.false_eq_true, if_false, Option.some.injEq, Prod.mk.injEq] at h
+    obtain ⟨rfl, rfl⟩ := h
+    simp [atReg, hpc, b2n]
+  · split at h
+    · simp only [Option.some.injEq, Prod.mk.injEq] at h; obtain ⟨rfl, rfl⟩ := h
+      simp [atReg, hpc, b2n]
+    · simp at h
+  · simp at h
+
+theorem DiskInv_keep {s t : CState} (h : DiskInv s) (hf : t.flt = none) (hac : t.m.autoClear = true)
+    (hacl : t.autoClean = false) (hd : t.onDisk = s.onDisk) (hfl : t.m.files.length = s.m.files.length)
+    (hc : cnt atReg t = cnt atReg s) : DiskInv t :=
+  ⟨hf, hac, hacl, by rw [hd, hfl, hc]; exact h.2.2.2⟩
+
+theorem cnt_caller (p : Writer → Bool) {s t : CState} (hw : t.writers = s.writers) (hi : t.inl = s.inl)
+    (hpc : (t.pc == CPc.finWrite) = (s.pc == CPc.finWrite)) : cnt p t = cnt p s := by
+  simp [cnt, hw, hi, hpc]
+
+theorem cnt_notFW (p : Writer → Bool) {s : CState} (h : s.pc ≠ .finWrite) : cnt p s = s.writers.countP p := by
+  have : (s.pc == CPc.finWrite) = false := by simpa using h
+  simp [cnt, this, b2n]
+
+theorem DiskInv_finishOp {s1 : CState} (h : DiskInv s1) (hpc : s1.pc ≠ .finWrite) (r : Res) (v : Option Elem) :
+    DiskInv (finishOp s1 r v) := by
+  refine ⟨h.1, h.2.1, h.2.2.1, ?_⟩
+  have e1 := cnt_notFW atReg hpc
+  have e2 : cnt atReg (finishOp s1 r v) = s1.writers.countP atReg := cnt_notFW atReg (by simp [finishOp])
+  show s1.onDisk = s1.m.files.length + cnt atReg (finishOp s1 r v)
+  rw [e2, ← e1]; exact h.2.2.2
+
+/-- replacing the sorter's fields by ones with the same files and the same AutoClear flag -/
+theorem DiskInv_m {s : CState} {m' : Morass.State} (h : DiskInv s) (hac : m'.autoClear = s.m.autoClear)
+    (hfl : m'.files.length = s.m.files.length) : DiskInv { s with m := m' } :=
+  ⟨h.1, by show m'.autoClear = true; rw [hac]; exact h.2.1, h.2.2.1,
+   by show s.onDisk = m'.files.length + cnt atReg s
+      rw [hfl]; exact h.2.2.2⟩
+
+theorem DiskInv_cstep {s t : CState} (hs : Str s) (h : DiskInv s) (hst : CStep s t) : DiskInv t := by
+  obtain ⟨hf, hac, hacl, hd⟩ := h
+  have h0 : DiskInv s := ⟨hf, hac, hacl, hd⟩
+  cases hst with
+  | pushErr _ _ _ hpc => exact DiskInv_finishOp h0 (by rw [hpc]; simp) _ _
+  | pushNil _ _ hpc => exact DiskInv_finishOp h0 (by rw [hpc]; simp) _ _
+  | finErr _ _ hpc => exact DiskInv_finishOp h0 (by rw [hpc]; simp) _ _
+  | finNil _ hpc => exact DiskInv_finishOp h0 (by rw [hpc]; simp) _ _
+  | waitErr _ hpc => exact DiskInv_finishOp h0 (by rw [hpc]; simp) _ _
+  | pushFull _ _ _ hpc =>
+    exact ⟨hf, hac, hacl, by
+      show s.onDisk = s.m.files.length + cnt atReg { s with pc := CPc.pushSend }
+      rw [cnt_notFW atReg (s := { s with pc := CPc.pushSend }) (by simp), ← cnt_notFW atReg (s := s) (by rw [hpc]; simp)]
+      exact hd⟩
+  | pushRoom e _ ch hpc _ he hch hfull =>
+    apply DiskInv_finishOp _ (by show s.pc ≠ _; rw [hpc]; simp)
+    apply DiskInv_m h0 <;> rw [push_room e he hch hfull]
+  | finFast _ ch hpc _ he hch hlt =>
+    apply DiskInv_finishOp _ (by show s.pc ≠ _; rw [hpc]; simp)
+    apply DiskInv_m h0 <;> simp [finalise, he, hch, hlt]
+  | finDisk _ _ hpc =>
+    exact ⟨hf, hac, hacl, by
+      show s.onDisk = s.m.files.length + cnt atReg { s with m := { s.m with fast := false }, pc := CPc.finSend }
+      rw [cnt_notFW atReg (s := { s with m := { s.m with fast := false }, pc := CPc.finSend }) (by simp),
+        ← cnt_notFW atReg (s := s) (by rw [hpc]; simp)]
+      exact hd⟩
+  | finEmpty _ _ flt fs ok hpc _ _ _ _ _ hp =>
+    rw [hf, primeAll_none'] at hp
+    simp only [Prod.mk.injEq] at hp
+    obtain ⟨rfl, rfl, rfl⟩ := hp
+    apply DiskInv_finishOp _ (by show s.pc ≠ _; rw [hpc]; simp)
+    exact ⟨rfl, hac, hacl, by
+      show s.onDisk = (s.m.files.map primeFile).length + cnt atReg s
+      rw [List.length_map]; exact hd⟩
+  | waitOk flt fs ok hpc _ _ hp =>
+    rw [hf, primeAll_none'] at hp
+    simp only [Prod.mk.injEq] at hp
+    obtain ⟨rfl, rfl, rfl⟩ := hp
+    apply DiskInv_finishOp _ (by show s.pc ≠ _; rw [hpc]; simp)
+    exact ⟨rfl, hac, hacl, by
+      show s.onDisk = (s.m.files.map primeFile).length + cnt atReg s
+      rw [List.length_map]; exact hd⟩
+  | pull _ hpc =>
+    have fr := pullF_frame s
+    obtain ⟨a, b, c'⟩ := pullF_disk hf hac hacl (by omega)
+    apply DiskInv_finishOp _ (by rw [fr.pc, hpc]; simp)
+    refine ⟨a, b, by rw [fr.autoClean]; exact hacl, ?_⟩
+    rw [cnt_caller atReg fr.writers fr.inl (by rw [fr.pc])]
+    omega
+  | clear _ hpc =>
+    have fr := clearF_frame s
+    obtain ⟨a, b, c', d⟩ := clearF_disk hf
+    apply DiskInv_finishOp _ (by rw [fr.pc, hpc]; simp)
+    refine ⟨a, by rw [d]; exact hac, by rw [fr.autoClean]; exact hacl, ?_⟩
+    rw [cnt_caller atReg fr.writers fr.inl (by rw [fr.pc]), b, c']
+    simp; omega
+  | send _ wr hpc =>
+    refine ⟨hf, hac, hacl, ?_⟩
+    show s.onDisk = s.m.files.length + cnt atReg { s with writable := wr, wg := s.wg + 1, writers := s.writers ++ [{}], pc := CPc.pushRecv }
+    rw [cnt_notFW atReg (s := { s with writable := wr, wg := s.wg + 1, writers := s.writers ++ [{}], pc := CPc.pushRecv }) (by simp)]
+    rw [cnt_notFW atReg (s := s) (by rw [hpc]; simp)] at hd
+    simp only [List.countP_append, List.countP_cons, List.countP_nil]
+    simpa [atReg] using hd
+  | recvErr _ _ _ hpc =>
+    apply DiskInv_finishOp _ (by show s.pc ≠ _; rw [hpc]; simp)
+    exact DiskInv_m h0 rfl rfl
+  | recvOk _ _ hpc =>
+    apply DiskInv_finishOp _ (by show s.pc ≠ _; rw [hpc]; simp)
+    exact DiskInv_m h0 rfl rfl
+  | fsend _ wr hpc =>
+    refine ⟨hf, hac, hacl, ?_⟩
+    rw [cnt_notFW atReg (s := s) (by rw [hpc]; simp)] at hd
+    simpa [cnt, atReg, b2n] using hd
+  | fwrite w s' hpc hw =>
+    have E := inl_effect hs hpc hw
+    obtain ⟨hdk, hac'⟩ := wstep_disk hf hw
+    obtain ⟨hf', _, _⟩ := wstep_nofault hf hw
+    refine ⟨hf', by show s'.m.autoClear = true; rw [hac']; exact hac,
+      by show s'.autoClean = false; rw [E.autoClean]; exact hacl, ?_⟩
+    have hc : cnt atReg { s' with inl := w, pc := if w.pc = WPc.done then CPc.finWait else CPc.finWrite }
+          + b2n (atReg s.inl) = cnt atReg s + b2n (atReg w) := by
+      by_cases hdn : w.pc = .done
+      · simp [cnt, hdn, E.writers, hpc, b2n, atReg]
+      · simp [cnt, hdn, E.writers, hpc, b2n]; omega
+    show s'.onDisk = s'.m.files.length + _
+    omega
+
+theorem DiskInv_step {s t : CState} {i : Nat} (hs : Str s) (h : DiskInv s) (hst : step s i = some t) : DiskInv t := by
+  cases i with
+  | zero => exact DiskInv_cstep hs h (cstep_cases (show cstep s = some t from hst))
+  | succ k =>
+    simp only [step] at hst
+    cases hk : s.writers[k]? with
+    | none => simp [hk] at hst
+    | some w =>
+      simp only [hk] at hst
+      cases hw : wstep s w with
+      | none => simp [hw] at hst
+      | some p =>
+        obtain ⟨w', s'⟩ := p
+        simp only [hw, Option.some.injEq] at hst; subst hst
+        obtain ⟨hf, hac, hacl, hd⟩ := h
+        have E := writer_effect hs hk hw
+        obtain ⟨hdk, hac'⟩ := wstep_disk hf hw
+        obtain ⟨hf', _, _⟩ := wstep_nofault hf hw
+        obtain ⟨hklt, hkw⟩ := List.getElem?_eq_some_iff.mp hk
+        have hc : cnt atReg { s' with writers := s'.writers.set k w' } + b2n (atReg w) = cnt atReg s + b2n (atReg w') := by
+          have := countP_set' atReg s.writers k w' hklt
+          rw [hkw] at this
+          simp only [cnt, E.writers, E.pc, E.inl]
+          omega
+        refine ⟨hf', by show s'.m.autoClear = true; rw [hac']; exact hac,
+          by show s'.autoClean = false; rw [E.autoClean]; exact hacl, ?_⟩
+        show s'.onDisk = s'.m.files.length + _
+        omega
+
+theorem reach_DiskInv {conc : Bool} {c : Nat} {prog : List Op} {s : CState}
+    (h : Reach (sys conc c true false prog none) s) : DiskInv s := by
+  have : Str s ∧ DiskInv s := by
+    refine inv_of_reach _ (fun s => Str s ∧ DiskInv s)
+      ⟨Str_init _ _ _ _ _ _, rfl, rfl, rfl, by simp [sys, initState, cnt, b2n]⟩ ?_ s h
+    intro a i b hab hst
+    exact ⟨Str_step hab.1 hst, DiskInv_step hab.1 hab.2 hst⟩
+  exact this.2
+
+/-- when the caller has returned from a cycle that was pulled to io.EOF, no run file is
+    registered and no writer is about to register one -/
+theorem finished_no_files {c : Nat} {ac : Bool} {cy : Cycle} {s : CState} (h : CInv c ac cy s)
+    (hnf : ∀ o ∈ s.outs, o.res ≠ .ioerr) (hfin : finished s = true) (hdrain : cy.pushes.length < cy.pulls) :
+    s.m.files = [] ∧ cnt atReg s = 0 := by
+  simp only [finished, Bool.and_eq_true, List.isEmpty_iff, beq_iff_eq] at hfin
+  obtain ⟨hprog, hpc⟩ := hfin
+  have hq : (∀ w ∈ s.writers, w.pc = .done) → cnt atReg s = 0 := by
+    intro hq
+    rw [cnt_notFW atReg (by rw [hpc]; simp)]
+    apply List.countP_eq_zero.mpr
+    intro w hw; simp [atReg, hq w hw]
+  rcases h with hrep | hpend | ⟨_, hF | hZ | hD | hE⟩
+  · obtain ⟨o, ho, hio⟩ := hrep; exact absurd hio (hnf o ho)
+  · obtain ⟨_, ⟨e, r, h'⟩ | ⟨r, h'⟩⟩ := hpend <;> rw [hprog] at h' <;> cases h'
+  · obtain ⟨xs, todo, ch, cp, hF⟩ := hF
+    have := hF.prog; rw [hprog] at this
+    cases todo <;> simp at this
+  · obtain ⟨A, cp, hZ⟩ := hZ
+    have := hZ.prog; rw [hprog] at this; cases this
+  · refine ⟨?_, hq hD.quiet⟩
+    obtain ⟨ds, e, k, hp, hcount, _, _, hcase⟩ := hD.ex
+    rw [hprog] at hp
+    have hk : k = 0 := by
+      cases k with
+      | zero => rfl
+      | succ k' => simp [List.replicate_succ] at hp
+    subst hk
+    have files_of_dr : ∀ {n}, Draining c ac 1 s.m n → remaining s.m = [] → s.m.files = [] := by
+      intro n hdr hrem
+      rcases hdr.shape with ⟨_, h, _⟩ | ⟨hfast, _, _, hok⟩
+      · exact h
+      · exact files_nil_of_remaining hok (by simpa [remaining, hfast] using hrem)
+    rcases hcase with ⟨he, hdr, hperm, _, _⟩ | ⟨_, hat, _⟩
+    · exfalso
+      subst he
+      have := hperm.length_eq
+      simp only [List.length_append] at this
+      omega
+    · rcases hat with ⟨hdr, hrem⟩ | ⟨_, hfr⟩
+      · exact files_of_dr hdr hrem
+      · exact hfr.files
+  · exact ⟨hE.files, hq hE.quiet⟩
 
 end Biogo.MorassConc
